@@ -158,7 +158,7 @@ func main() {
 	proxyv1alpha1.AddToScheme(scheme)
 	plugin = upstreamclusteradmission.NewUpstreamClusterPlugin().(admission.MutationInterface)
 	rig.Main("C17", func(c *rig.Ctx) {
-		c.SetRule("a dispatch rule (8 fields; lists of 0-4 entries from the colliding universe of C01 or raw bytes; mixes of '*', '-x', 'x', '', duplicates) is admitted by the real plugin (Admit) and matched by the real RuleMatches against 6 request tuples before and after; distinct = distinct canonical (rule, requests); non-trivial = some field of the rule changes under normalisation")
+		c.SetRule("a dispatch rule (8 fields; lists of 0-4 entries from the colliding universe of C01 or raw bytes; mixes of '*', '-x', 'x', '', duplicates) is admitted by the real plugin (Admit) and matched by the real RuleMatches against 8 request tuples (5 derived from the rule's own entries so that rules match often, 3 independent) before and after; distinct = distinct canonical (rule, requests); non-trivial = some field of the rule changes under normalisation")
 		if c.Replay != "" {
 			var cs Case
 			if err := c.LoadReplay(&cs); err != nil {
@@ -170,7 +170,7 @@ func main() {
 			return
 		}
 		n := c.Budget(20000, 400000)
-		for i := 0; i < n && c.NFailures() < 5; i++ {
+		for i := 0; i < n && !c.Stop(); i++ {
 			raw := i%4 == 3
 			rule := mg.Rule(c.Rng, raw)
 			if c.Rng.Intn(2) == 0 {
@@ -178,8 +178,12 @@ func main() {
 				rule.Verbs, rule.APIGroups, rule.Resources, rule.NonResourceURLs = mg.List(c.Rng, raw), mg.List(c.Rng, raw), mg.List(c.Rng, raw), mg.List(c.Rng, raw)
 			}
 			cs := Case{Rule: mg.RuleJSON(rule), Attrs: []map[string]interface{}{}}
-			for j := 0; j < 6; j++ {
-				cs.Attrs = append(cs.Attrs, mg.GenAttrs(c.Rng, raw).JSON())
+			for j := 0; j < 8; j++ {
+				if j < 5 {
+					cs.Attrs = append(cs.Attrs, mg.AttrsFor(c.Rng, rule, raw).JSON())
+				} else {
+					cs.Attrs = append(cs.Attrs, mg.GenAttrs(c.Rng, raw).JSON())
+				}
 			}
 			n1, _ := admit(rule)
 			changed := canonRule(n1) != canonRule(rule)
@@ -192,7 +196,11 @@ func main() {
 			})
 			c.Trace()
 			if !run(c, cs, false) {
-				run(c, shrink(c, cs), true)
+				if c.NFailures() < 12 {
+					run(c, shrink(c, cs), true)
+				} else {
+					run(c, cs, true)
+				}
 			}
 		}
 	})
